@@ -9,7 +9,7 @@ def _drift():
     import os
     import vf
     res = {}
-    for name, term in (("histories", "drift fx_all"), ("keys", "drift2 true true")):
+    for name, term in (("histories", "drift fx_now"), ("keys", "drift2 true true false")):
         try:
             obs = vf.read_obs(os.path.join(vf.OUT, "C11", "obs_%s.jsonl" % name))[:150]
             if not obs:
@@ -29,23 +29,23 @@ P = {
     "extra_coverage": _drift,
     "coq_targets": ["Properties/C11.vo", "Run/Eval_C11.vo"],
     "theorems_module": "Properties.C11",
-    "theorems": ["C11_no_boundary_shift", "C11_F4_refuted", "C11_key_deterministic", "C11_F1_refuted",
+    "theorems": ["C11_no_boundary_shift", "C11_collision_needs_shift", "C11_F4_refuted", "C11_key_deterministic", "C11_F1_refuted",
                  "C11_key_injective", "C11_cache_transparent", "C11_cache_transparent_repaired", "C11_nonvacuous",
-                 "C11_cache_transparent_if_compatible", "C11_shared_key_changes_decision",
                  "C11_identical_requests_hit",
-                 "C11_F2_refuted", "C11_F3_refuted", "C11_F4_history_refuted", "C11_F6_refuted", "C11_F7_refuted",
+                 "C11_F2_refuted", "C11_F3_refuted", "C11_F4_history_refuted", "C11_F6_refuted", "C11_F7_refuted", "C11_F10_refuted",
                  "C11_cc_cache_transparent", "C11_cc_F4_refuted", "C11_jf_cache_transparent", "C11_F5_refuted",
-                 "C11_hc_cache_transparent", "C11_hc_cache_transparent_repaired", "C11_F8_refuted", "C11_F9_refuted", "C11_jk_cache_transparent"],
+                 "C11_hc_cache_transparent", "C11_hc_cache_transparent_repaired", "C11_F8_refuted", "C11_F9_refuted",
+                 "C11_jk_cache_transparent", "C11_F11_refuted"],
     "streams": [{
         "name": "histories", "pkg": "./internal/rules/mechanisms", "test": "TestVerifC11",
-        "overlay": OVERLAY, "eval_module": "Run.Eval_C11", "check_term": "check fx_all",
+        "overlay": OVERLAY, "eval_module": "Run.Eval_C11", "check_term": "check fx_now",
         "n_quick": 800, "n_thorough": 8000, "shard": 56,
-        "findings": {4: "C11-F4", 6: "C11-F6", 7: "C11-F7"},
+        "findings": {4: "C11-F4", 6: "C11-F6", 7: "C11-F7", 10: "C11-F10"},
     }, {
         "name": "keys", "pkg": "./internal/rules/mechanisms", "test": "TestVerifC11Keys",
-        "overlay": OVERLAY, "eval_module": "Run.Eval_C11", "check_term": "check2 true true",
+        "overlay": OVERLAY, "eval_module": "Run.Eval_C11", "check_term": "check2 true true false",
         "n_quick": 300, "n_thorough": 3000, "shard": 56,
-        "findings": {4: "C11-F4"},
+        "findings": {4: "C11-F4", 11: "C11-F11"},
     }],
     "rule": "stream histories: histories of 2-6 executions of REAL caching mechanisms (oauth2_introspection and generic authenticators, "
             "remote authorizer, generic contextualizer) created by the real mechanism factory from a generated prototype (0-3 endpoint "
